@@ -76,6 +76,7 @@ var keywordTab = [256]string{
 
 var (
 	i64type  = reflect.TypeOf(int64(0))
+	inttype  = reflect.TypeOf(int(0))
 	bytetype = reflect.TypeOf(byte(0))
 )
 
@@ -406,8 +407,8 @@ func doParseType(vt reflect.Type, def string, i *int, allowPtrs bool, depth int)
 				return nil, ex
 			} else if !ok {
 				return nil, mkMistyped(*i-len(tv), def, tv, tag, vt)
-			} else if tag == T_i64 && vt != i64type {
-				tag = T_enum
+			} else if tag == T_i64 && vt != i64type && vt != inttype {
+				tag = T_enum // a defined 64-bit integer type named in the annotation: an enum
 			}
 		}
 	}
